@@ -29,6 +29,8 @@ set_option linter.all false
 
 open EPV EPV.Gen EPV.Spec EPV.Lemmas
 
+open Filter Topology
+
 namespace EPV.C01
 
 /-- the traced model has exactly the leaves the theorems below cover (leaf 0: NaN for t ≤ 0) -/
@@ -174,5 +176,54 @@ theorem Finding_cog13_domain :
     by norm_num, by norm_num, ?_⟩
   rintro ⟨-, -, -, -, -, -, -, hB, -⟩
   norm_num at hB
+
+/-! ### The returned (tree-level) fields
+
+The only path condition is `t ≤ 0` (NaN fields): for t > 0 the returned fields are those of leaf 1
+near the point. -/
+
+theorem cog13_tree_agree (p : Cog13.P) (r t : ℝ) (ht : 0 < t) :
+    AgreeNear (Cog13.density p) (Cog13.L1.density p) r t
+      ∧ AgreeNear (Cog13.velocity p) (Cog13.L1.velocity p) r t
+      ∧ AgreeNear (Cog13.temperature p) (Cog13.L1.temperature p) r t := by
+  have hx : ∀ᶠ x in 𝓝 r, 0 < t := Eventually.of_forall fun _ => ht
+  have hs : ∀ᶠ s in 𝓝 t, 0 < s := eventually_gt_nhds ht
+  have e : ∀ x s : ℝ, 0 < s → ¬ Cog13.c0 p x s := by
+    intro x s hc; simp only [epv_cond, not_le]; exact hc
+  exact ⟨agreeNear_of_cond (c := fun _ s => 0 < s) (fun x s hc => by simp only [epv_tree, if_neg (e x s hc)]) hx hs,
+    agreeNear_of_cond (c := fun _ s => 0 < s) (fun x s hc => by simp only [epv_tree, if_neg (e x s hc)]) hx hs,
+    agreeNear_of_cond (c := fun _ s => 0 < s) (fun x s hc => by simp only [epv_tree, if_neg (e x s hc)]) hx hs⟩
+
+theorem cog13_mass_tree (p : Cog13.P) (r t : ℝ) (hr : 0 < r) (ht : 0 < t) :
+    massRes (Cog13.density p) (Cog13.velocity p) (p.geometry - 1) r t = 0 := by
+  obtain ⟨h1, h2, h3⟩ := cog13_tree_agree p r t ht
+  rw [massRes_congr_near h1 h2]; exact cog13_mass p r t hr ht
+
+theorem cog13_momentum_tree (p : Cog13.P) (r t : ℝ) (hr : 0 < r) (ht : 0 < t) (hρ : p.rho0 ≠ 0)
+    (hab : p.alpha - p.beta - 4 ≠ 0) :
+    momResT (Cog13.density p) (Cog13.velocity p) (Cog13.temperature p) p.Gamma r t = 0 := by
+  obtain ⟨h1, h2, h3⟩ := cog13_tree_agree p r t ht
+  rw [momResT_congr_near h1 h2 h3]; exact cog13_momentum p r t hr ht hρ hab
+
+/-- the energy equation is violated by the returned fields wherever they are well defined -/
+theorem cog13_energy_tree_ne_zero (p : Cog13.P) (r t : ℝ) (hwd : Cog13.L1.WellDefined p r t)
+    (hΓ : p.Gamma ≠ 0) :
+    energyResT (Cog13.density p) (Cog13.velocity p) (Cog13.temperature p)
+      p.Gamma p.gamma (p.geometry - 1) 29970000000 (686 / 5) p.lambda0 p.alpha p.beta r t ≠ 0 := by
+  obtain ⟨h1, h2, h3⟩ := cog13_tree_agree p r t hwd.2.2.1
+  rw [energyResT_congr_near h1 h2 h3]; exact cog13_energy_ne_zero p r t hwd hΓ
+
+/-- FINDING (false on the current tree), for the returned fields themselves: class defaults, r = t = 1 -/
+theorem Finding_cog13_energy_tree :
+    ∃ p : Cog13.P, ∃ r t : ℝ, Cog13.outcome p r t = .ok ∧ Cog13.L1.WellDefined p r t ∧ p.geometry = 3 ∧
+      energyResT (Cog13.density p) (Cog13.velocity p) (Cog13.temperature p)
+        p.Gamma p.gamma (p.geometry - 1) 29970000000 (686 / 5) p.lambda0 p.alpha p.beta r t ≠ 0 :=
+  ⟨_, 1, 1, by simp only [epv_tree, epv_cond]; norm_num, cog13_default_wellDefined, rfl,
+    cog13_energy_tree_ne_zero _ 1 1 cog13_default_wellDefined (by norm_num)⟩
+
+/-- non-vacuity of the hypotheses of `cog13_mass`, `cog13_momentum` (class defaults) -/
+example : ∃ p : Cog13.P, ∃ r t : ℝ, 0 < r ∧ 0 < t ∧ p.rho0 ≠ 0 ∧ p.alpha - p.beta - 4 ≠ 0 :=
+  ⟨⟨40, 686 / 5, 2, 2, 1, 1, 29970000000, 7 / 5, 3, 1 / 10, 1 / 10, 9 / 5⟩, 1, 1, by norm_num, by norm_num,
+    by norm_num, by norm_num⟩
 
 end EPV.C01
